@@ -13,6 +13,11 @@ use neurons::tensor::{Shape, Tensor};
 
 pub struct C18;
 
+thread_local! {
+    static REFUSED_FIRST: std::cell::Cell<u64> = std::cell::Cell::new(0);
+}
+
+
 const M: u64 = 2147483647; // 2^31 - 1
 const CHUNK: u64 = 1 << 20;
 
@@ -164,7 +169,7 @@ impl Monitor for C18 {
         }
     }
     fn rule(&self) -> &'static str {
-        "states_*: one case per chunk of seeds s; create(s) + one draw visits generator state 48271*s mod m (a bijection on [1,m-1]); per state: generate() over a 12-pair (min,max) panel (incl. two intervals whose width overflows f32) must be finite and in [min,max], shuffle(len 1) and shuffle(len 2..6) must return a permutation without panicking, states whose unit draw is >= 0.999999 are swept over every len 1..200; distinct = number of distinct states visited. seeds: seed classes (0, 1, small, around m, multiples of m, 2^32, >3.8e14, u64::MAX, timestamps) x lengths 0..200: no panic, permutation, purity (same seed twice; same seed while a second generator draws and shuffles in between). clock: Tensor::random's possible clock seeds (subsec_micros in [0,1e6)) replayed through Generator for 256 draws. tensor_random: Tensor::random itself for every rank."
+        "states_*: one case per chunk of seeds s; create(s) + one draw visits generator state 48271*s mod m (a bijection on [1,m-1]); per state: generate() over a 12-pair (min,max) panel (incl. two intervals whose width overflows f32) must be finite and in [min,max], shuffle(len 1) and shuffle(len 2..6) must return a permutation without panicking, states whose unit draw is >= 0.999999 are swept over every len 1..200; distinct = number of distinct states visited. seeds: seed classes (0, 1, small, around m, multiples of m, 2^32, >3.8e14, u64::MAX, timestamps) x lengths 0..200: no panic, permutation, purity (same seed twice; same seed while a second generator draws and shuffles in between). clock: Tensor::random's possible clock seeds (subsec_micros in [0,1e6)) replayed through Generator for 256 draws. tensor_random: Tensor::random itself for every rank; every third request follows a request for a shape the library refuses (rank 5 / nested), which must not disturb it."
     }
     fn assumptions(&self) -> Vec<&'static str> {
         vec![
@@ -302,6 +307,14 @@ impl Monitor for C18 {
             "tensor_random" => {
                 let mut rng = Rng::stream(seed, gen, idx);
                 let dims: Vec<usize> = (0..(1 + idx % 4)).map(|_| rng.range(1, 6)).collect();
+                // every third case: a request the library refuses (a shape it cannot initialise)
+                // comes first on this thread - the valid request after it must be served as usual
+                if idx % 3 == 1 {
+                    let refused = guard(|| neurons::tensor::Tensor::random(if idx % 2 == 0 { neurons::tensor::Shape::Quintuple(1, 1, 1, 2, 2) } else { neurons::tensor::Shape::Nested(2) }, -1.0, 1.0));
+                    if refused.is_err() {
+                        REFUSED_FIRST.with(|c| c.set(c.get() + 1));
+                    }
+                }
                 let (lo, hi) = match rng.range(0, 7) {
                     6 => (-2.0e38f32, 2.0e38f32),
                     7 => (f32::MIN, f32::MAX),
